@@ -134,8 +134,32 @@ func unpackInto(c *ucfg.Config, t reflect.Type, ptr bool, opts ...ucfg.Option) (
 	return f, err, p
 }
 
-func c03Direct(val interface{}, k kindSpec, how string) (Case, bool) {
-	c, err := ucfg.NewFrom(map[string]interface{}{"v": val})
+func c03Direct(val interface{}, k kindSpec, how string, viaSet bool) (Case, bool) {
+	var c *ucfg.Config
+	var err error
+	via := "newfrom"
+	if viaSet {
+		// written with a typed setter: the setting keeps the setter's kind whatever the value
+		// (a positive number stays a signed integer after SetInt)
+		c = ucfg.New()
+		via = "set"
+		switch x := val.(type) {
+		case int64:
+			err = c.SetInt("v", -1, x)
+		case uint64:
+			err = c.SetUint("v", -1, x)
+		case float64:
+			err = c.SetFloat("v", -1, x)
+		case bool:
+			err = c.SetBool("v", -1, x)
+		case string:
+			err = c.SetString("v", -1, x)
+		default:
+			return Case{}, false
+		}
+	} else {
+		c, err = ucfg.NewFrom(map[string]interface{}{"v": val})
+	}
 	if err != nil {
 		return Case{}, false
 	}
@@ -185,8 +209,8 @@ func c03Direct(val interface{}, k kindSpec, how string) (Case, bool) {
 		durs = append(durs, fmt.Sprint(x))
 	}
 	coq := fmt.Sprintf("CConv %s %s %s %s %s %s", coqStr(how), k.coq, coqValue(vn), ftextTable(fts...), durTable(durs...), obs)
-	return Case{Coq: coq, Desc: map[string]interface{}{"kind": "conv", "how": how, "target": k.name, "value": encTree(val), "stored": descValue(vn), "observed": d},
-		Tags: []string{"target:" + k.name, "how:" + how, "src:" + vn.Kind, "res:" + d[:min(3, len(d))]}, Nontrivial: true}, true
+	return Case{Coq: coq, Desc: map[string]interface{}{"kind": "conv", "how": how, "via": via, "target": k.name, "value": encTree(val), "stored": descValue(vn), "observed": d},
+		Tags: []string{"target:" + k.name, "how:" + how, "via:" + via, "src:" + vn.Kind, "res:" + d[:min(3, len(d))]}, Nontrivial: true}, true
 }
 
 func c03Dyn(val interface{}, k kindSpec, mode string) (Case, bool) {
@@ -254,8 +278,32 @@ func genC03(g *Gen) {
 			}
 			how := hows[r.Intn(len(hows))]
 			g.Mark(map[string]interface{}{"kind": "conv", "how": how, "target": k.name, "value": encTree(v)})
-			if c, ok := c03Direct(v, k, how); ok {
+			if c, ok := c03Direct(v, k, how, r.P(1, 4)); ok {
 				g.Add(c)
+			}
+		}
+	}
+	// whole seconds across the range a Duration can hold, signed and unsigned, written both ways:
+	// the nanosecond count must be exact (above 2^53 ns a float product is not)
+	var dur kindSpec
+	for _, k := range c03Kinds {
+		if k.name == "duration" {
+			dur = k
+		}
+	}
+	const maxSecs = int64(9223372036)
+	secs := []int64{maxSecs - 1, maxSecs, maxSecs + 1, 4611686018, 4611686019, 5000000001, 1<<33 + 1, 9007199254, 9007199255, 1 << 62, math.MaxInt64}
+	for i := 0; i < 24; i++ {
+		secs = append(secs, 1+int64(r.U64()%uint64(maxSecs+4)))
+	}
+	for _, x := range secs {
+		for _, v := range []interface{}{x, -x, uint64(x)} {
+			for _, viaSet := range []bool{false, true} {
+				how := hows[r.Intn(3)]
+				g.Mark(map[string]interface{}{"kind": "conv", "how": how, "target": "duration", "value": encTree(v)})
+				if c, ok := c03Direct(v, dur, how, viaSet); ok {
+					g.Add(c)
+				}
 			}
 		}
 	}
